@@ -21,7 +21,7 @@ ASSUMPTIONS = ["nvmon.ref exact reference model for the input points; cos/sin of
 FLOORS = {'quick': {'mapped-point': 3000, 'weights-unchanged': 150, 'inplace-semantics': 300, 'aggregate': 100},
           'thorough': {'mapped-point': 30000}}
 MANDATORY_TAGS = ['translate', 'rotate', 'scale', 'container', 'single', 'inplace', 'copy', 'rational', 'axis0', 'axis1', 'axis2',
-                  'dim2', 'pdim3', 'read-before-inplace', 'null-map']
+                  'dim2', 'pdim3', 'read-before-inplace', 'null-map', 'partially-iterated']
 TECHNIQUE = ("runtime monitoring: exact reference points of the input mapped by the exact affine map vs library evaluation of the "
              "result, plus object-identity / input-digest checks, under a seeded workload incl. containers")
 LEVEL_TEXT = ("Each transform call is judged at probe parameters on every element against the mapped exact points of the input and "
@@ -110,6 +110,17 @@ def check(case, ctx):
                 input_views['weights'] = list(obj.weights)
         if case['inplace']:
             ctx.tag('read-before-inplace')
+    if case['container'] and len(elems) > 1 and rng.random() < 0.5:
+        # user code that looked at the container before and stopped early (any(), next(iter()), a loop with break)
+        ctx.tag('partially-iterated')
+        which = rng.randrange(3)
+        if which == 0:
+            any(True for e_ in obj)
+        elif which == 1:
+            next(iter(obj))
+        else:
+            for e_ in obj:
+                break
     res = getattr(operations, op)(obj, *args, **kw)
     # ---- inplace / copy semantics ----------------------------------------------------------------------------------------------
     if case['inplace']:
